@@ -256,6 +256,8 @@ def _safe_names(fn):
 
 
 def check(ctx, rep):
+    from . import c28, _share
+    _share.share(ctx, rep, c28, ('illegal.only-single',), 'the name lookup shortens a name only by a single trailing dot: a dots-only element cannot be cut down to `..`')
     # ---- (i) who may call ------------------------------------------------------------
     n_sites = 0
     for fn in ctx.idx.functions('pcbasic/basic/'):
@@ -379,12 +381,43 @@ def check(ctx, rep):
     asis = [r for r in rets if r[0] == 'uni_name']
     rep.ob('native-name.as-is-must-exist', 'a name is used as given only if it exists in the resolved directory',
            len(asis) == 2 and all('istype(native_path, uni_name, isdir)' in f for _, f in asis), repr(rets), ctx.where(gn))
+    # the name returned "as given" is joined to the native path by the callers: it must not be a dot entry.  The
+    # resolver normalises the path while trailing blanks are still attached, and they are stripped only here -- so
+    # the test has to come after the strip and before the first return
+    strip = [a for a in gn.body if isinstance(a, ast.Assign) and norm(a.targets[0]) == 'dos_name' and norm(a.value).startswith('self._get_dos_name_defext(')]
+    dots = [n for n in gn.body if isinstance(n, ast.If) and isinstance(n.test, ast.Compare) and norm(n.test.left) == 'dos_name' and isinstance(n.test.ops[0], ast.In)
+            and sorted(ctx.fold(n.test.comparators[0]) or ()) == [b'.', b'..'] and isinstance(n.body[0], ast.Raise)]
+    first_ret = min([r.lineno for r in own_nodes(gn) if isinstance(r, ast.Return)] or [0])
+    later_mods = [a for a in own_nodes(gn) if isinstance(a, ast.Assign) and norm(a.targets[0]) == 'dos_name' and dots and a.lineno > dots[0].lineno
+                  and not (isinstance(a.value, ast.Subscript) and norm(a.value) == 'dos_name[:-1]')]
+    rep.ob('native-name.never-a-dot-entry', 'after trailing blanks are stripped, a name that is `.` or `..` is refused before anything is returned',
+           len(strip) == 1 and len(dots) == 1 and strip[0].lineno < dots[0].lineno < first_ret and not later_mods,
+           'a path element such as ".. " survives the normalisation of the path and is joined to the native path as "..": OPEN ".. \\FILE" reads outside the mount',
+           ctx.where(gn))
+    gde = ctx.fn(DISK + ':DiskDevice._get_dos_name_defext')
+    rep.ob('native-name.strip-location', 'trailing blanks are stripped in _get_dos_name_defext (and nowhere later in the name lookup)',
+           any(norm(x) == 'dos_name = dos_name.rstrip()' for x in gde.body), '', ctx.where(gde))
     created = [r for r in rets if 'norm_name.decode' in r[0]]
     rep.ob('native-name.created-names-legal', 'a new name is the normalised 8.3 name that passed dos_is_legal_name',
            len(created) == 1 and 'create' in created[0][1] and any(isinstance(n, ast.If) and norm(n.test) == 'not dos_is_legal_name(norm_name)'
                                                                    and ctx.basic_error_code(n.body[0]) == 'BAD_FILE_NAME' for n in own_nodes(gn)), repr(created), ctx.where(gn))
     legal = ctx.const(DISK, 'ALLOWABLE_CHARS')
     rep.ob('native-name.no-separators-legal', 'no path separator, dot or NUL is an allowable name character', not (set(legal) & set(b'/\\.:\0*?')), repr(sorted(set(legal) & set(b'/\\.:\0*?'))), DISK)
+    # the mount table: a drive given as None is *unmounted*; the default "Z: = host working directory" applies only
+    # when the caller said nothing about Z at all -- so an entry may be dropped from the normalised table only for
+    # an unusable key, never for an empty value
+    npm = ctx.fn(FILES + ':Files._normalise_params')
+    skips = [n for n in own_nodes(npm) if isinstance(n, ast.If) and [norm(x) for x in n.body] == ['continue']]
+    rep.ob('mount.none-keeps-drive-unmounted', '_normalise_params drops an entry only when its key is not a device name',
+           len(skips) == 1 and norm(skips[0].test) == 'not key', repr([norm(n.test) for n in skips]), ctx.where(npm))
+    idd = ctx.fn(FILES + ':Files._init_disk_devices')
+    dflt = [n for n in own_nodes(idd) if isinstance(n, ast.If) and any(isinstance(a, ast.Assign) and 'getcwdu()' in norm(a.value) for a in n.body)]
+    rep.ob('mount.default-z-only-if-unspecified', 'Z: defaults to the host working directory only if Z is absent from the table',
+           len(dflt) == 1 and norm(dflt[0].test) == "b'Z' not in device_params", repr([norm(n.test) for n in dflt]), ctx.where(idd))
+    mounted = [n for n in own_nodes(idd) if isinstance(n, ast.If) and 'letter in device_params' in norm(n.test)]
+    rep.ob('mount.empty-value-is-unmounted', 'a drive whose value is empty gets an empty native root (every path on it is refused)',
+           len(mounted) == 1 and norm(mounted[0].test) == 'letter in device_params and device_params[letter]'
+           and any(norm(a) == "path, cwd = (u'', u'')" for a in mounted[0].orelse), '', ctx.where(idd))
     # ---- (iv) device selection -----------------------------------------------------------------
     gd = ctx.fn(FILES + ':Files._get_diskdevice_and_path')
     fl = ctx.flow(gd)
@@ -418,6 +451,10 @@ def variants(ctx):
            in_fn('DiskDevice._get_native_reldir', lambda fn: mu.remove_stmt(fn, mu.stmt_has("b'/' in dospath", ast.If))), expect='resolver'),
         Va('dotdot-unclamped', 'break', DISK,
            in_fn('DiskDevice._get_native_reldir', lambda fn: mu.replace_stmt(fn, mu.text_is('cwd = cwd[:-1]'), 'cwd = cwd + [os.pardir]')), expect='resolver.clamped'),
+        Va('none-mount-falls-back-to-cwd', 'break', FILES,
+           in_fn('Files._normalise_params', lambda fn: mu.replace_expr(fn, lambda n: isinstance(n, ast.UnaryOp) and norm(n) == 'not key', 'not key or not value', count=1)), expect='mount.none'),
+        Va('dot-entry-after-strip-accepted', 'break', DISK,
+           in_fn('DiskDevice._get_native_name', lambda fn: mu.remove_stmt(fn, lambda st: isinstance(st, ast.If) and norm(st.test) == "dos_name in (b'.', b'..')")), expect='native-name.never-a-dot'),
         Va('normpath-after-consuming', 'break', DISK, in_fn('DiskDevice._get_native_reldir', _normpath_late), expect='resolver.order'),
         Va('elements-not-resolved', 'break', DISK,
            in_fn('DiskDevice._get_native_reldir', lambda fn: mu.replace_expr(fn, lambda n: isinstance(n, ast.Call) and norm(n.func) == 'self._get_native_name',
